@@ -14,6 +14,9 @@ LEVEL_TEXT["C01"] = "Bounded model checking of the real sign and verify with a P
 LEVEL_TEXT["C02"] = "Bounded model checking of the real verify: the accept <=> A(sk+e) = B(pk, header, all messages) equivalence for arbitrary (A, e), sk and oracle answers (so any edit that changes an oracle query or a message scalar changes B by a non-zero multiple of a generator), plus, for an arbitrary valid signature, every one of the 640 single-bit flips of its encoding (symbolic bit index) is refused by the decoder or by verify. Cross-suite / cross-interface claims rest on query separation and are not decided here."
 LEVEL_TEXT["C03"] = "Bounded model checking of the real proof_gen followed by the real proof_verify in one query, with a programmed random oracle: for an arbitrary valid signature over symbolic message scalars and domain, every disclosure subset of the stated shapes in ascending, descending and duplicated presentation, proof generation succeeds, makes the prescribed oracle queries, the proof has 272 + 32*U octets, the verifier hashes exactly the same challenge input as the prover (captured octets compared: T1, T2, domain, indexes, disclosed scalars, ph) and accepts. The encode/decode round trip of proofs is C09 (rt_proof)."
 LEVEL_TEXT["C04"] = "Same flow as C03 with one edit between prover and verifier (disclosed message replaced, header replaced, presentation header replaced, disclosed index moved): the verifier's challenge input provably differs from the prover's, and the verifier accepts only if an independent oracle answer coincides with the transmitted challenge (probability 1/r for a random oracle). Identity-point proofs are refused by the decoder (C09 forbid_identity_proof). Forgery families without a signature, the serde path, other public key and single-bit flips of proof octets are NOT decided."
+LEVEL_TEXT["C05"] = "Bounded model checking of the real commit -> to_bytes -> blind_sign -> verify_blind_sign chain and of blind_proof_gen -> blind_proof_verify, each in one query with a programmed random oracle and a fixed draw table: commit succeeds and draws M+2 scalars, the signer recomputes exactly the prover's commitment-challenge input (captured octets), issues (A, e) with A(sk+e) = P1 + Q1*domain + sum H_i m_i + Q2*blind + sum J_j cm_j, the holder's verification accepts; blind proofs with all messages disclosed verify and the verifier hashes the prover's challenge input (index translation j + L + 1, M = U + R - L - 1)."
+LEVEL_TEXT["C06"] = "Same chains with one edit: a flipped payload bit in any segment of the serialized commitment (C, s^, m^_i, challenge) makes blind_sign refuse unless an independent oracle answer equals the transmitted challenge (probability 1/r); verify_blind_sign rejects (exactly) an altered committed message, blinding factor, header or signer message; a blind proof with a replaced disclosed committed message is rejected likewise. Cross-suite replays, scalar-granular truncation/extension (C08/C09 cover the framing) and edits that re-assign generators (wrong L, swapped index lists) are NOT decided."
+LEVEL_TEXT["C07"] = "Bounded model checking of the real proof_gen / commit / blind_proof_gen against a rand model that hands out a fixed table of DISTINCT draws: the number of draws is exactly 5+U / M+2, and every blinding value recomputed by a witness holder (r1, r2 from Abar and D; e~, r1~, r3~, m~_j, s~, m~_i from the responses; secret_prover_blind) equals the draw the drafts assign to that role, also for a second generation on the same inputs (disjoint draws). A constant, a reused or skipped draw, or swapped roles fails. Statistical quality of thread_rng, threads, KeyPair::random and the octet-window claim are NOT decided."
 NOTES = {
     "C08": "bls12_381_plus / elliptic-curve / rand are replaced by model crates (prime-order group as discrete logs mod 257, logged deterministic oracle, unconstrained randomness); generator creation and message-to-scalar hashing are stubbed by tables in operation harnesses; CBMC pointer-validity checks are ignored because zkryptium is safe Rust (checked at run time); inputs longer than the stated lengths, serde_json decoding and wall-clock time are outside.",
     "C09": "what the real bls12_381_plus accepts as a point or scalar is outside (model codecs are canonical by construction); JSON codec outside; lengths beyond the stated ranges outside.",
@@ -24,6 +27,9 @@ NOTES["C01"] = "model dependencies; generators from a fixed pure table (stub, re
 NOTES["C02"] = "as C01; 'altered message / header => different oracle answer => different scalar' is the random-oracle assumption (not decided); other public key, other ciphersuite, plain vs blind interface are NOT covered; bit flips for L <= 2."
 NOTES["C03"] = "programmed oracle; fixed pure generator table; CONCRETE secret key (5), signature exponent (9), challenge (77) and blinding draw sequence (table of 16 distinct values) - with these symbolic the solver has to prove associativity of products of three symbolic factors mod 257 and does not finish; symbolic: all message scalars, domain, message/header/ph octets; L <= 3 with at most ONE undisclosed message (two or more do not close within the caps); production randomness path is the one compiled."
 NOTES["C04"] = "as C03; 'a different query gets an independent answer' is the random-oracle assumption; only the four edit classes listed, on honest proofs; no adversarial proof construction."
+NOTES["C05"] = "programmed oracle, fixed generator table, concrete sk = 5, e-answer 9, challenge 77, fixed draws, CONCRETE committed-message scalars (11, 13, ..) - symbolic ones do not close; signer-message scalars, domain and all octets symbolic; (L, M) in {0,1}^2 quick (L+M <= 3 thorough); blind proofs only with every message disclosed (the blinding factor is the one undisclosed value)."
+NOTES["C06"] = "as C05; 'different query => independent answer' and 'different message => different scalar' are random-oracle assumptions; bit flips restricted to the payload octet of each segment (framing octets are covered by C09)."
+NOTES["C07"] = "the property is checked as usage of the randomness source by zkryptium (which draw feeds which role), under the rand model; uniformity/independence of thread_rng is the model's contract, not a result; more than 16 draws, cross-thread behaviour and key generation randomness are outside."
 TECH = "bounded model checking of the compiled Rust code (Kani 0.68 -> CBMC 6.11 -> CaDiCaL), one symbolic query per shape, counterexamples replayed on the real build"
 
 NOT_APPLICABLE = {
@@ -38,7 +44,7 @@ NOT_APPLICABLE = {
 PENDING = {}
 
 
-CLAIMED = ["C01", "C02", "C03", "C04", "C08", "C09", "C10", "C12"]
+CLAIMED = ["C01", "C02", "C03", "C04", "C05", "C06", "C07", "C08", "C09", "C10", "C12"]
 
 
 def main():
